@@ -245,6 +245,7 @@ struct CaseStats {
 }
 
 struct Viol {
+    avoid: Vec<usize>,
     key: String,
     summary: String,
     input: Vec<usize>,
@@ -341,7 +342,7 @@ fn check_parse(
     let toks = &inp.toks;
     let n = toks.len();
     let mut v = |key: &str, summary: String, extra: Value| {
-        viols.push(Viol { key: key.to_string(), summary, input: toks.clone(), costs: costs.to_vec(), extra });
+        viols.push(Viol { avoid: vec![], key: key.to_string(), summary, input: toks.clone(), costs: costs.to_vec(), extra });
     };
     let errs: &Vec<ErrOut> = &out.errors;
     st.errors += errs.len() as u64;
@@ -895,17 +896,21 @@ fn run_case(v: &Value) -> Value {
         let out = match out {
             Ok(o) => o,
             Err(e) => {
-                viols.push(Viol { key: "panic".into(), summary: format!("the recovering parse panicked: {}", vcore::report::panic_msg(&e)), input: w.clone(), costs: costs.clone(), extra: json!(null) });
+                viols.push(Viol { avoid: avoid.clone(), key: "panic".into(), summary: format!("the recovering parse panicked: {}", vcore::report::panic_msg(&e)), input: w.clone(), costs: costs.clone(), extra: json!(null) });
                 continue;
             }
         };
+        let nv = viols.len();
         check_parse(mode, g, b, &drv, &ea, &inp, costs, &out, exhausted, &mut st, &mut viols);
+        for x in viols[nv..].iter_mut() {
+            x.avoid = avoid.clone();
+        }
     }
     let nviol = viols.len();
     let vs: Vec<Value> = viols
         .into_iter()
         .take(40)
-        .map(|x| json!({"key": x.key, "summary": x.summary, "input": x.input, "costs": x.costs, "extra": x.extra}))
+        .map(|x| json!({"key": x.key, "summary": x.summary, "input": x.input, "costs": x.costs, "avoid": x.avoid, "extra": x.extra}))
         .collect();
     let deadline_pass = v["budget_ms"].as_u64().is_some();
     json!({
@@ -1163,7 +1168,7 @@ pub fn run(ctx: Ctx, mode: Mode) -> i32 {
                             &key,
                             &format!("{} [input {} costs {}] {}", x["summary"].as_str().unwrap_or("?"), x["input"], x["costs"], gs[gi].short()),
                             {
-                                let mut c = json!({"grammar": gs[gi].to_json(), "input": x["input"], "costs": x["costs"], "avoid": gs[gi].avoid_insert, "extra": x["extra"]});
+                                let mut c = json!({"grammar": gs[gi].to_json(), "input": x["input"], "costs": x["costs"], "avoid": x["avoid"], "extra": x["extra"]});
                                 // the deadline pass is replayed under the same budgets
                                 c["step_budget"] = base_cases[gi]["step_budget"].clone();
                                 if base_cases[gi].get("budget_ms").is_some() {
